@@ -987,6 +987,9 @@ class Sandbox:
         """
         Queues the given value as the next arguments to the `input` function.
         """
+        if isinstance(inputs, (list, tuple)):
+            # A copy first: the caller may hand back the live queue (set_input(get_input()))
+            inputs = list(inputs)
         if inputs is None:
             self.inputs = []
         if clear:
